@@ -100,9 +100,9 @@ package rules
 //@   option stable (*matchBlockBuilder).UsingMatchBlocks, (*matchBlockBuilder).doneFirstPositiveMatchBlock, (*matchBlockBuilder).markAllBlocksPass, (*matchBlockBuilder).markThisBlockPass
 //@   requires c08Bits(r)
 //@   ghost at call MarkClear: c08Fire = (c08Mark & arg1 == 0)
-//@   ghost at call ClearMark: c08Mark = c08Fire ? (c08Mark & (0xffffffff ^ arg1)) : c08Mark
-//@   ghost at call SetMark: c08Mark = c08Fire ? (c08Mark | arg1) : c08Mark
-//@   ghost at call SetMaskedMark: c08Mark = c08Fire ? ((c08Mark & (0xffffffff ^ arg2)) | arg1) : c08Mark
+//@   ghost at call ClearMark: c08Mark = c08Fire ? (c08Mark & (0xffffffff ^ arg1)) : c08Mark ; c08Fire = true
+//@   ghost at call SetMark: c08Mark = c08Fire ? (c08Mark | arg1) : c08Mark ; c08Fire = true
+//@   ghost at call SetMaskedMark: c08Mark = c08Fire ? ((c08Mark & (0xffffffff ^ arg2)) | arg1) : c08Mark ; c08Fire = true
 //@   ensures r.doneFirstPositiveMatchBlock && c08Same(r) && r.UsingMatchBlocks == old(r.UsingMatchBlocks)
 //@   ensures !old(r.doneFirstPositiveMatchBlock) ==> c08Mark == old(c08Mark)
 //@   ensures old(r.doneFirstPositiveMatchBlock) ==> c08Mark == ((old(c08Mark) & r.markThisBlockPass == 0) ? (old(c08Mark) & (0xffffffff ^ r.markAllBlocksPass)) : old(c08Mark))
@@ -115,17 +115,17 @@ package rules
 //@   option safety off
 //@   option stable (*matchBlockBuilder).UsingMatchBlocks, (*matchBlockBuilder).doneFirstPositiveMatchBlock, (*matchBlockBuilder).markAllBlocksPass, (*matchBlockBuilder).markThisBlockPass
 //@   requires c08Bits(r) && c08Inv(r) && (r.UsingMatchBlocks ==> r.doneFirstPositiveMatchBlock)
-//@   ghost at call maybeAppendInitialRule: c08Was = old(r.UsingMatchBlocks) ; c08Blk = false
+//@   ghost at call maybeAppendInitialRule: c08Was = old(r.UsingMatchBlocks) ; c08Blk = false ; c08Fire = true
 //@   ghost at call MatchNet: c08Fire = pktMatches(res)
-//@   ghost at call SetMark: c08Mark = c08Fire ? (c08Mark | arg1) : c08Mark ; c08Blk = c08Blk || c08Fire
-//@   ghost at call ClearMark: c08Mark = c08Fire ? (c08Mark & (0xffffffff ^ arg1)) : c08Mark
-//@   ghost at call SetMaskedMark: c08Mark = c08Fire ? ((c08Mark & (0xffffffff ^ arg2)) | arg1) : c08Mark
+//@   ghost at call SetMark: c08Mark = c08Fire ? (c08Mark | arg1) : c08Mark ; c08Blk = c08Blk || c08Fire ; c08Fire = true
+//@   ghost at call ClearMark: c08Mark = c08Fire ? (c08Mark & (0xffffffff ^ arg1)) : c08Mark ; c08Fire = true
+//@   ghost at call SetMaskedMark: c08Mark = c08Fire ? ((c08Mark & (0xffffffff ^ arg2)) | arg1) : c08Mark ; c08Fire = true
 //@   ghost at call finishPositiveBlock: c08All = (c08Was ? (c08All && c08Blk) : c08Blk)
 //@   ensures c08Same(r) && r.UsingMatchBlocks && r.doneFirstPositiveMatchBlock
 //@   ensures c08All == (old(r.UsingMatchBlocks) ? (old(c08All) && c08Blk) : c08Blk)
 //@   ensures (c08Mark & r.markAllBlocksPass != 0) == c08All
 //@   ensures c08Mark & r.markThisBlockPass == 0
-//@   loop 1 invariant c08Same(r) && r.UsingMatchBlocks && r.doneFirstPositiveMatchBlock == old(r.doneFirstPositiveMatchBlock) && c08Was == old(r.UsingMatchBlocks) && c08All == old(c08All) && markToSet == (old(r.doneFirstPositiveMatchBlock) ? r.markThisBlockPass : r.markAllBlocksPass)
+//@   loop 1 invariant c08Fire && c08Same(r) && r.UsingMatchBlocks && r.doneFirstPositiveMatchBlock == old(r.doneFirstPositiveMatchBlock) && c08Was == old(r.UsingMatchBlocks) && c08All == old(c08All) && markToSet == (old(r.doneFirstPositiveMatchBlock) ? r.markThisBlockPass : r.markAllBlocksPass)
 //@   loop 1 invariant !old(r.doneFirstPositiveMatchBlock) ==> ((c08Mark & r.markAllBlocksPass != 0) == c08Blk) && (c08Mark & r.markThisBlockPass == 0)
 //@   loop 1 invariant old(r.doneFirstPositiveMatchBlock) ==> ((c08Mark & r.markThisBlockPass != 0) == c08Blk) && ((c08Mark & r.markAllBlocksPass != 0) == old(c08All))
 
@@ -134,21 +134,21 @@ package rules
 //@   option safety off
 //@   option stable (*matchBlockBuilder).UsingMatchBlocks, (*matchBlockBuilder).doneFirstPositiveMatchBlock, (*matchBlockBuilder).markAllBlocksPass, (*matchBlockBuilder).markThisBlockPass
 //@   requires c08Bits(r) && c08Inv(r) && (r.UsingMatchBlocks ==> r.doneFirstPositiveMatchBlock)
-//@   ghost at call maybeAppendInitialRule: c08Was = old(r.UsingMatchBlocks) ; c08Blk = false
+//@   ghost at call maybeAppendInitialRule: c08Was = old(r.UsingMatchBlocks) ; c08Blk = false ; c08Fire = true
 //@   ghost at call AppendMatchPorts: c08Fire = pktMatches(res)
 //@   ghost at call MatchIPPortIPSet: c08Fire = pktMatches(res)
-//@   ghost at call SetMark: c08Mark = c08Fire ? (c08Mark | arg1) : c08Mark ; c08Blk = c08Blk || c08Fire
-//@   ghost at call ClearMark: c08Mark = c08Fire ? (c08Mark & (0xffffffff ^ arg1)) : c08Mark
-//@   ghost at call SetMaskedMark: c08Mark = c08Fire ? ((c08Mark & (0xffffffff ^ arg2)) | arg1) : c08Mark
+//@   ghost at call SetMark: c08Mark = c08Fire ? (c08Mark | arg1) : c08Mark ; c08Blk = c08Blk || c08Fire ; c08Fire = true
+//@   ghost at call ClearMark: c08Mark = c08Fire ? (c08Mark & (0xffffffff ^ arg1)) : c08Mark ; c08Fire = true
+//@   ghost at call SetMaskedMark: c08Mark = c08Fire ? ((c08Mark & (0xffffffff ^ arg2)) | arg1) : c08Mark ; c08Fire = true
 //@   ghost at call finishPositiveBlock: c08All = (c08Was ? (c08All && c08Blk) : c08Blk)
 //@   ensures c08Same(r) && r.UsingMatchBlocks && r.doneFirstPositiveMatchBlock
 //@   ensures c08All == (old(r.UsingMatchBlocks) ? (old(c08All) && c08Blk) : c08Blk)
 //@   ensures (c08Mark & r.markAllBlocksPass != 0) == c08All
 //@   ensures c08Mark & r.markThisBlockPass == 0
-//@   loop 1 invariant c08Same(r) && r.UsingMatchBlocks && r.doneFirstPositiveMatchBlock == old(r.doneFirstPositiveMatchBlock) && c08Was == old(r.UsingMatchBlocks) && c08All == old(c08All) && markToSet == (old(r.doneFirstPositiveMatchBlock) ? r.markThisBlockPass : r.markAllBlocksPass)
+//@   loop 1 invariant c08Fire && c08Same(r) && r.UsingMatchBlocks && r.doneFirstPositiveMatchBlock == old(r.doneFirstPositiveMatchBlock) && c08Was == old(r.UsingMatchBlocks) && c08All == old(c08All) && markToSet == (old(r.doneFirstPositiveMatchBlock) ? r.markThisBlockPass : r.markAllBlocksPass)
 //@   loop 1 invariant !old(r.doneFirstPositiveMatchBlock) ==> ((c08Mark & r.markAllBlocksPass != 0) == c08Blk) && (c08Mark & r.markThisBlockPass == 0)
 //@   loop 1 invariant old(r.doneFirstPositiveMatchBlock) ==> ((c08Mark & r.markThisBlockPass != 0) == c08Blk) && ((c08Mark & r.markAllBlocksPass != 0) == old(c08All))
-//@   loop 2 invariant c08Same(r) && r.UsingMatchBlocks && r.doneFirstPositiveMatchBlock == old(r.doneFirstPositiveMatchBlock) && c08Was == old(r.UsingMatchBlocks) && c08All == old(c08All) && markToSet == (old(r.doneFirstPositiveMatchBlock) ? r.markThisBlockPass : r.markAllBlocksPass)
+//@   loop 2 invariant c08Fire && c08Same(r) && r.UsingMatchBlocks && r.doneFirstPositiveMatchBlock == old(r.doneFirstPositiveMatchBlock) && c08Was == old(r.UsingMatchBlocks) && c08All == old(c08All) && markToSet == (old(r.doneFirstPositiveMatchBlock) ? r.markThisBlockPass : r.markAllBlocksPass)
 //@   loop 2 invariant !old(r.doneFirstPositiveMatchBlock) ==> ((c08Mark & r.markAllBlocksPass != 0) == c08Blk) && (c08Mark & r.markThisBlockPass == 0)
 //@   loop 2 invariant old(r.doneFirstPositiveMatchBlock) ==> ((c08Mark & r.markThisBlockPass != 0) == c08Blk) && ((c08Mark & r.markAllBlocksPass != 0) == old(c08All))
 
@@ -159,14 +159,14 @@ package rules
 //@   option safety off
 //@   option stable (*matchBlockBuilder).UsingMatchBlocks, (*matchBlockBuilder).doneFirstPositiveMatchBlock, (*matchBlockBuilder).markAllBlocksPass, (*matchBlockBuilder).markThisBlockPass
 //@   requires c08Bits(r) && c08Inv(r)
-//@   ghost at call maybeAppendInitialRule: c08Was = old(r.UsingMatchBlocks) ; c08Blk = false ; c08All = (old(r.UsingMatchBlocks) ? c08All : true)
+//@   ghost at call maybeAppendInitialRule: c08Was = old(r.UsingMatchBlocks) ; c08Blk = false ; c08Fire = true ; c08All = (old(r.UsingMatchBlocks) ? c08All : true)
 //@   ghost at call MatchNet: c08Fire = pktMatches(res)
-//@   ghost at call ClearMark: c08Mark = c08Fire ? (c08Mark & (0xffffffff ^ arg1)) : c08Mark ; c08Blk = c08Blk || c08Fire ; c08All = c08All && !c08Fire
-//@   ghost at call SetMark: c08Mark = c08Fire ? (c08Mark | arg1) : c08Mark ; c08Blk = c08Blk || c08Fire
-//@   ghost at call SetMaskedMark: c08Mark = c08Fire ? ((c08Mark & (0xffffffff ^ arg2)) | arg1) : c08Mark
+//@   ghost at call ClearMark: c08Mark = c08Fire ? (c08Mark & (0xffffffff ^ arg1)) : c08Mark ; c08Blk = c08Blk || c08Fire ; c08All = c08All && !c08Fire ; c08Fire = true
+//@   ghost at call SetMark: c08Mark = c08Fire ? (c08Mark | arg1) : c08Mark ; c08Blk = c08Blk || c08Fire ; c08Fire = true
+//@   ghost at call SetMaskedMark: c08Mark = c08Fire ? ((c08Mark & (0xffffffff ^ arg2)) | arg1) : c08Mark ; c08Fire = true
 //@   ensures c08Same(r) && r.UsingMatchBlocks && r.doneFirstPositiveMatchBlock == old(r.doneFirstPositiveMatchBlock)
 //@   ensures c08All == ((old(r.UsingMatchBlocks) ? old(c08All) : true) && !c08Blk)
 //@   ensures (c08Mark & r.markAllBlocksPass != 0) == c08All
 //@   ensures c08Mark & r.markThisBlockPass == 0
-//@   loop 1 invariant c08Same(r) && r.UsingMatchBlocks && r.doneFirstPositiveMatchBlock == old(r.doneFirstPositiveMatchBlock)
+//@   loop 1 invariant c08Fire && c08Same(r) && r.UsingMatchBlocks && r.doneFirstPositiveMatchBlock == old(r.doneFirstPositiveMatchBlock)
 //@   loop 1 invariant c08All == ((old(r.UsingMatchBlocks) ? old(c08All) : true) && !c08Blk) && ((c08Mark & r.markAllBlocksPass != 0) == c08All) && (c08Mark & r.markThisBlockPass == 0)
